@@ -1,49 +1,113 @@
-//@ assume: UTXOView, Batch, Inputs are abstract; validate_input (under contract in C02/utxo_view) resolves an input commitment to (output identifier, position); get_header_by_height returns the header at that height on the chain being extended; global::coinbase_maturity is an uninterpreted constant
-//@ assume: T6 rewrites: the two iterator chains (`inputs.iter().map(validate_input).collect()` and `.iter().filter_map(coinbase pos).max()`) => helpers resolve_all / max_coinbase_pos whose ASSUMED contracts are: every input resolved in order or the first error returned; the maximum position among resolved coinbase outputs, None iff there is none. `let inputs: Vec<_> = inputs.into()` => abstract conversion. The cutoff logic after them is the real text.
-//@ assume: decided here: UTXOView::verify_coinbase_maturity returns Ok only if every input resolved and, when at least one resolved output is a coinbase, the block/tx height is at least the maturity AND the most recent (highest-position) coinbase being spent lies at or below the output MMR size of the header `maturity` blocks below -- i.e. every spent coinbase was created at or before that header
-//@ assumed_items: 10
-//@ fns: UTXOView::verify_coinbase_maturity
-#[verifier::external_body]
+//@ assume: UTXOView, Batch, Inputs are abstract; validate_input (under contract in C02/utxo_view) resolves an input commitment to (output identifier, position) or fails: sp_validate; get_header_by_height returns the header at that height on the chain being extended; global::coinbase_maturity is a per-chain constant
+//@ assume: T5: the two iterator chains `inputs.iter().map(f).collect::<Result<Vec<_>, _>>()` and `spent.iter().filter_map(g).max()` keep their shape over abstract stand-ins (InputVec/InIter/ResIter, SpentVec/SpIter/PosIter) whose contracts say exactly: map applies f in order; collect is Ok(all values) iff no element is an Err; filter_map keeps the `Some` results in order; max is the largest element (None iff empty). BOTH closures are the REAL closure texts, verified as lifted functions (T7). T6: `let inputs: Vec<_> = inputs.into()` => inputs_into; the type annotation `Result<Vec<_>, _>` => `Result<SpentVec, Error>`
+//@ assume: decided here: UTXOView::verify_coinbase_maturity returns Ok only if every input resolved (validate_input on its own commitment) and, when at least one resolved output is a coinbase, the block/tx height is at least the maturity AND EVERY coinbase being spent sits at a position <= the output MMR size of the header `maturity` blocks below -- i.e. the check is made against the MOST RECENT (highest-position) coinbase, not the first or last one in input order; it fails when a coinbase is spent below the maturity height. History clauses (every fork) are not decided.
+//@ assumed_items: 15
+//@ fns: UTXOView::verify_coinbase_maturity, 2 closures in UTXOView::verify_coinbase_maturity
+#[derive(Clone, Copy, PartialEq, Eq)]
+pub struct Commitment { pub c: u64 }
+#[derive(Clone, Copy, PartialEq, Eq)]
+pub enum OutputFeatures { Plain, Coinbase }
+impl OutputFeatures { pub fn is_coinbase(self) -> (r: bool) ensures r == (self == OutputFeatures::Coinbase) { match self { OutputFeatures::Coinbase => true, OutputFeatures::Plain => false } } }
 #[derive(Clone, Copy)]
-pub struct Commitment { _p: u8 }
-#[derive(Clone, Copy)]
-pub struct OutputIdentifier { pub is_cb: bool, pub commit: Commitment }
+pub struct OutputIdentifier { pub features: OutputFeatures, pub commit: Commitment }
 #[derive(Clone, Copy)]
 pub struct CommitPos { pub pos: u64, pub height: u64 }
+#[derive(Clone, Copy)]
+pub struct Input { pub c: Commitment }
+impl Input { pub fn commitment(&self) -> (r: Commitment) ensures r == self.c { self.c } }
 #[verifier::external_body]
 pub struct Inputs { _p: u8 }
-#[verifier::external_body]
-pub struct InputList { _p: u8 }
+impl Inputs { pub uninterp spec fn list(&self) -> Seq<Input>; }
 #[verifier::external_body]
 pub struct Batch { _p: u8 }
 pub struct BlockHeader { pub output_mmr_size: u64, pub height: u64 }
+#[derive(Clone, Copy)]
 pub enum Error { ImmatureCoinbase, AlreadySpent, Store }
 pub uninterp spec fn sp_maturity() -> u64;
-pub uninterp spec fn sp_resolved(v: UTXOView, batch: Batch, inputs: Inputs) -> Option<Seq<(OutputIdentifier, CommitPos)>>;
+pub uninterp spec fn sp_validate(v: UTXOView, batch: Batch, c: Commitment) -> Result<(OutputIdentifier, CommitPos), Error>;
 pub uninterp spec fn sp_header_at(v: UTXOView, batch: Batch, height: u64) -> Option<BlockHeader>;
 pub mod global {
     use super::*;
     #[verifier::external_body]
     pub fn coinbase_maturity() -> (r: u64) ensures r == sp_maturity() { unimplemented!() }
 }
+/// every input resolved, in order -- or None if one did not
+pub open spec fn resolved(v: UTXOView, batch: Batch, ins: Seq<Input>) -> Option<Seq<(OutputIdentifier, CommitPos)>> decreases ins.len() {
+    if ins.len() == 0 { Some(Seq::empty()) } else {
+        match (resolved(v, batch, ins.drop_last()), sp_validate(v, batch, ins.last().c)) { (Some(s), Ok(x)) => Some(s.push(x)), _ => None } }
+}
+pub open spec fn is_cb_at(s: Seq<(OutputIdentifier, CommitPos)>, i: int) -> bool { 0 <= i < s.len() && s[i].0.features == OutputFeatures::Coinbase }
+/// what the second closure must return
+pub open spec fn sp_cb_pos(x: (OutputIdentifier, CommitPos)) -> Option<u64> { if x.0.features == OutputFeatures::Coinbase { Some(x.1.pos) } else { None } }
+pub open spec fn cb_positions(s: Seq<(OutputIdentifier, CommitPos)>) -> Seq<u64> decreases s.len() {
+    if s.len() == 0 { Seq::empty() } else { let r = cb_positions(s.drop_last()); match sp_cb_pos(s.last()) { Some(p) => r.push(p), None => r } }
+}
+/// stand-ins for the iterator adaptors
+pub struct InputVec { pub v: Vec<Input> }
+pub struct InIter { pub items: Ghost<Seq<Input>> }
+pub struct ResIter { pub view: Ghost<UTXOView>, pub batch: Ghost<Batch>, pub ins: Ghost<Seq<Input>> }
+pub struct SpentVec { pub v: Vec<(OutputIdentifier, CommitPos)> }
+pub struct SpIter { pub items: Ghost<Seq<(OutputIdentifier, CommitPos)>> }
+pub struct PosIter { pub items: Ghost<Seq<u64>> }
+pub struct ResolveEnv<'a> { pub view: &'a UTXOView, pub batch: &'a Batch }
+pub struct CbPos {}
 #[verifier::external_body]
-fn inputs_into(inputs: &Inputs) -> (r: InputList) ensures r.of() == *inputs { unimplemented!() }
-impl InputList { pub uninterp spec fn of(&self) -> Inputs; }
+fn inputs_into(inputs: &Inputs) -> (r: InputVec) ensures r.v@ == inputs.list() { unimplemented!() }
+impl InputVec { #[verifier::external_body] pub fn iter(&self) -> (r: InIter) ensures r.items@ == self.v@ { unimplemented!() } }
+impl InIter {
+    /// Iterator::map with the lifted closure resolve_one (returns sp_validate(view, batch, x.c) for each x)
+    #[verifier::external_body]
+    pub fn map(self, f: ResolveEnv) -> (r: ResIter) ensures r.view@ == *f.view, r.batch@ == *f.batch, r.ins@ == self.items@ { unimplemented!() }
+}
+impl ResIter {
+    /// collect::<Result<Vec<_>, _>>(): Ok(all values in order) iff no element is an Err
+    #[verifier::external_body]
+    pub fn collect(self) -> (r: Result<SpentVec, Error>)
+        ensures r matches Ok(sv) ==> resolved(self.view@, self.batch@, self.ins@) == Some(sv.v@), r.is_err() ==> resolved(self.view@, self.batch@, self.ins@).is_none() { unimplemented!() }
+}
+impl SpentVec { #[verifier::external_body] pub fn iter(&self) -> (r: SpIter) ensures r.items@ == self.v@ { unimplemented!() } }
+impl SpIter {
+    #[verifier::external_body]
+    pub fn filter_map(self, f: CbPos) -> (r: PosIter) ensures r.items@ == cb_positions(self.items@) { unimplemented!() }
+}
+impl PosIter {
+    #[verifier::external_body]
+    pub fn min(self) -> (r: Option<u64>)
+        ensures self.items@.len() == 0 ==> r.is_none(),
+            self.items@.len() > 0 ==> (r matches Some(m) && self.items@.contains(m) && forall|i: int| 0 <= i < self.items@.len() ==> self.items@[i] >= m) { unimplemented!() }
+    #[verifier::external_body]
+    pub fn last(self) -> (r: Option<u64>)
+        ensures self.items@.len() == 0 ==> r.is_none(), self.items@.len() > 0 ==> r == Some(self.items@.last()) { unimplemented!() }
+    #[verifier::external_body]
+    pub fn max(self) -> (r: Option<u64>)
+        ensures self.items@.len() == 0 ==> r.is_none(),
+            self.items@.len() > 0 ==> (r matches Some(m) && self.items@.contains(m) && forall|i: int| 0 <= i < self.items@.len() ==> self.items@[i] <= m) { unimplemented!() }
+}
+/// cb_positions lists exactly the positions of the coinbase entries
+proof fn lemma_cb_positions(s: Seq<(OutputIdentifier, CommitPos)>)
+    ensures forall|i: int| is_cb_at(s, i) ==> cb_positions(s).contains(#[trigger] s[i].1.pos),
+            forall|p: u64| cb_positions(s).contains(p) ==> exists|i: int| is_cb_at(s, i) && #[trigger] s[i].1.pos == p,
+    decreases s.len()
+{
+    if s.len() > 0 {
+        let t = s.drop_last(); lemma_cb_positions(t);
+        let r = cb_positions(t); let full = cb_positions(s);
+        assert forall|i: int| is_cb_at(s, i) implies full.contains(#[trigger] s[i].1.pos) by {
+            if i < t.len() { assert(is_cb_at(t, i)); assert(t[i] == s[i]); assert(r.contains(t[i].1.pos)); let k = choose|k: int| 0 <= k < r.len() && r[k] == t[i].1.pos; assert(full[k] == r[k]); }
+            else { assert(full == r.push(s.last().1.pos)); assert(full[full.len() - 1] == s[i].1.pos); }
+        }
+        assert forall|p: u64| full.contains(p) implies exists|i: int| is_cb_at(s, i) && #[trigger] s[i].1.pos == p by {
+            let k = choose|k: int| 0 <= k < full.len() && full[k] == p;
+            if k < r.len() { assert(r[k] == p); assert(r.contains(p)); let i = choose|i: int| is_cb_at(t, i) && #[trigger] t[i].1.pos == p; assert(is_cb_at(s, i) && s[i].1.pos == p); }
+            else { assert(is_cb_at(s, s.len() - 1) && s[s.len() - 1].1.pos == p); }
+        }
+    }
+}
 #[verifier::external_body]
 pub struct UTXOView { _p: u8 }
-
-pub open spec fn is_cb_at(s: Seq<(OutputIdentifier, CommitPos)>, i: int) -> bool { 0 <= i < s.len() && s[i].0.is_cb }
-#[verifier::external_body]
-fn max_coinbase_pos(spent: &Vec<(OutputIdentifier, CommitPos)>) -> (r: Option<u64>)
-    ensures r.is_none() <==> (forall|i: int| !is_cb_at(spent@, i)),
-            r matches Some(m) ==> (exists|i: int| is_cb_at(spent@, i) && spent@[i].1.pos == m) && (forall|i: int| is_cb_at(spent@, i) ==> spent@[i].1.pos <= m)
-{ unimplemented!() }
 impl UTXOView {
     #[verifier::external_body]
-    fn resolve_all(&self, inputs: &InputList, batch: &Batch) -> (r: Result<Vec<(OutputIdentifier, CommitPos)>, Error>)
-        ensures r matches Ok(v) ==> sp_resolved(*self, *batch, inputs.of()) == Some(v@),
-                r.is_err() ==> sp_resolved(*self, *batch, inputs.of()).is_none()
-    { unimplemented!() }
+    pub fn validate_input(&self, commit: Commitment, batch: &Batch) -> (r: Result<(OutputIdentifier, CommitPos), Error>) ensures r == sp_validate(*self, *batch, commit) { unimplemented!() }
     #[verifier::external_body]
     pub fn get_header_by_height(&self, height: u64, batch: &Batch) -> (r: Result<BlockHeader, Error>)
         ensures r matches Ok(h) ==> sp_header_at(*self, *batch, height) == Some(h), r.is_err() ==> sp_header_at(*self, *batch, height).is_none()
@@ -51,16 +115,34 @@ impl UTXOView {
 
 //@ extract chain/src/txhashset/utxo_view.rs :: impl UTXOView::verify_coinbase_maturity
 //@   sigrewrite `batch: &Batch<'_>,` => `batch: &Batch,`
-//@   rewrite `let inputs: Vec<_> = inputs.into();` => `let inputs: InputList = inputs_into(inputs);`
-//@   rewrite `let spent: Result<Vec<_>, _> = inputs\n\t\t\t.iter()\n\t\t\t.map(|x| self.validate_input(x.commitment(), batch))\n\t\t\t.collect();` => `let spent = self.resolve_all(&inputs, batch);`
-//@   rewrite `let pos = spent?\n\t\t\t.iter()\n\t\t\t.filter_map(|(out, pos)| {\n\t\t\t\tif out.features.is_coinbase() {\n\t\t\t\t\tSome(pos.pos)\n\t\t\t\t} else {\n\t\t\t\t\tNone\n\t\t\t\t}\n\t\t\t})\n\t\t\t.max();` => `let pos = max_coinbase_pos(&spent?);`
+//@   rewrite `let inputs: Vec<_> = inputs.into();` => `let inputs: InputVec = inputs_into(inputs);`
+//@   rewrite `let spent: Result<Vec<_>, _> = inputs` => `let spent: Result<SpentVec, Error> = inputs`
+//@   eclosure 1 replaced_by `ResolveEnv { view: self, batch }`
+//@   closure 1 replaced_by `CbPos {}`
+//@   before `if let Some(pos) = pos {`:
+//@+    proof { let s = resolved(*self, *batch, inputs.v@).unwrap(); let cp = cb_positions(s); lemma_cb_positions(s);
+//@+            assert forall|i: int| is_cb_at(s, i) implies (pos matches Some(m) && s[i].1.pos <= m) by {
+//@+                assert(cp.contains(s[i].1.pos)); let k = choose|k: int| 0 <= k < cp.len() && cp[k] == s[i].1.pos; assert(cp[k] <= pos.unwrap()); }
+//@+            if pos.is_some() { let m = pos.unwrap(); assert(cp.contains(m)); let i = choose|i: int| is_cb_at(s, i) && #[trigger] s[i].1.pos == m; assert(is_cb_at(s, i)); } }
 //@   ensures:
-//@+    r.is_ok() ==> (sp_resolved(*self, *batch, *inputs) matches Some(s) && (
+//@+    r.is_ok() ==> (resolved(*self, *batch, inputs.list()) matches Some(s) && (
 //@+        (forall|i: int| !is_cb_at(s, i)) || (
 //@+            height >= sp_maturity()
 //@+            && (sp_header_at(*self, *batch, (height - sp_maturity()) as u64) matches Some(h)
 //@+                && forall|i: int| is_cb_at(s, i) ==> s[i].1.pos <= h.output_mmr_size)))),
-//@+    (sp_resolved(*self, *batch, *inputs) matches Some(s) && (exists|i: int| is_cb_at(s, i)) && height < sp_maturity()) ==> r.is_err(),
+//@+    (resolved(*self, *batch, inputs.list()) matches Some(s) && (exists|i: int| is_cb_at(s, i)) && height < sp_maturity()) ==> r.is_err(),
+//@ end
+//@ extract chain/src/txhashset/utxo_view.rs :: impl UTXOView::verify_coinbase_maturity
+//@   eclosure 1 lifted_as `fn resolve_one(&self, x: &Input, batch: &Batch) -> Result<(OutputIdentifier, CommitPos), Error>`
+//@   ensures:
+//@+    r == sp_validate(*self, *batch, x.c),
 //@ end
 }
+//@ extract chain/src/txhashset/utxo_view.rs :: impl UTXOView::verify_coinbase_maturity
+//@   closure 1 lifted_as `fn cb_pos(arg: &(OutputIdentifier, CommitPos)) -> Option<u64>`
+//@   at_start:
+//@+    let (out, pos) = arg; // the closure's pattern parameter `|(out, pos)|` (the verifier accepts only identifier parameters)
+//@   ensures:
+//@+    r == sp_cb_pos(*arg),
+//@ end
 //@ canary verify_coinbase_maturity: r.is_err()
